@@ -151,7 +151,10 @@ func (l *listener) Listen() (err error) {
 		return mangos.ErrClosed
 	default:
 	}
-	l.l, err = l.lc.Listen(context.Background(), "tcp", l.addr)
+	l.lock.Lock()
+	lc := l.lc // SetOption may change the keep-alive setting meanwhile
+	l.lock.Unlock()
+	l.l, err = lc.Listen(context.Background(), "tcp", l.addr)
 	if err != nil {
 		return
 	}
